@@ -42,8 +42,9 @@ def build_harness(cfg="a"):
     t0 = time.time()
     env = None
     if cfg == "d":
-        # the crate (and the harness) with debug assertions and overflow checks on, as `cargo build` / `cargo test` build it
-        env = dict(os.environ, CARGO_PROFILE_RELEASE_DEBUG_ASSERTIONS="true", CARGO_PROFILE_RELEASE_OVERFLOW_CHECKS="true")
+        # the crate (and the harness) unoptimised, with debug assertions and overflow checks on, as `cargo build` / `cargo test` build it
+        env = dict(os.environ, CARGO_PROFILE_RELEASE_DEBUG_ASSERTIONS="true", CARGO_PROFILE_RELEASE_OVERFLOW_CHECKS="true",
+                   CARGO_PROFILE_RELEASE_OPT_LEVEL="0")
     r = sh(["cargo", "build", "--release", "--offline", "--target-dir", tdir] + feats, cwd=HARNESS, timeout=1200, env=env)
     if r.returncode != 0:
         sys.stdout.write(r.stdout[-6000:])
